@@ -66,7 +66,8 @@ Record gparse := MkG {
   gp_result : outcome (option json);        (* ParseResult(&raw) *)
   gp_model : outcome (json * bytes);        (* ParseModel *)
   gp_coll : outcome (json * bytes);         (* ParseCollection *)
-  gp_access : outcome (bool * bytes) }.     (* AccessResult *)
+  gp_access : outcome (bool * bytes);       (* AccessResult *)
+  gp_typed : bool * bool * bool }.          (* no error from ParseResult(&string), ParseModel(&[]RawMessage), ParseCollection(&map[string]RawMessage) *)
 
 Inductive ccase :=
 (* json.Marshal(s) without its quotes; utf8.ValidString(s); Unmarshal(Marshal(s)) *)
@@ -74,7 +75,11 @@ Inductive ccase :=
 (* json.Unmarshal('"' + body + '"', &string) *)
 | CUnq (body : bytes) (g : option bytes)
 (* Ref(rid)/SoftRef(rid): json.Marshal(string(rid)), MarshalJSON outputs, Unmarshal(Marshal) results *)
-| CRef (rid : bytes) (g_q g_ref g_soft : bytes) (g_ref_back g_soft_back : option bytes)
+| CRef (rid : bytes) (g_q g_ref g_soft : bytes) (g_ref_back g_soft_back : option bytes) (g_valid : bool * bool)
+(* Value.MarshalJSON of a Value built field by field (the zero Value, store.DeleteValue, ...) *)
+| CValM (a : value) (g_marshal : bytes)
+(* MarshalDataValue(v) for a v that json.Marshal rejects *)
+| CDVErr (g : outcome bytes)
 (* Ref.UnmarshalJSON(text) *)
 | CRefU (text : bytes) (v : view) (g : option bytes)
 (* resprot.MarshalDataValue(j), the parser's view of it, UnmarshalDataValue of it *)
@@ -100,7 +105,10 @@ Definition chk (b : bool) (code : N) : list N := if b then [] else [code].
 
 Definition model_parse (data : bytes) (v : view) : gparse :=
   let r := parse_response data v in
-  MkG r (has_flags r) (parse_result r) (parse_model r) (parse_collection r) (access_result r).
+  MkG r (has_flags r) (parse_result r) (parse_model r) (parse_collection r) (access_result r)
+      (match parse_result r with Ok None => true | Ok (Some (JStr _)) => true | _ => false end,
+       match parse_model r with Ok (JArr _, _) | Ok (JNull, _) => true | _ => false end,
+       match parse_collection r with Ok (JObj _, _) | Ok (JNull, _) => true | _ => false end).
 Definition bool3_eqb (a b : bool * bool * bool) : bool :=
   Bool.eqb (fst (fst a)) (fst (fst b)) && Bool.eqb (snd (fst a)) (snd (fst b)) && Bool.eqb (snd a) (snd b).
 Definition check_parse (data : bytes) (v : view) (g : gparse) : list N :=
@@ -111,7 +119,8 @@ Definition check_parse (data : bytes) (v : view) (g : gparse) : list N :=
   chk (outcome_eqb ojson_eqb (gp_result m) (gp_result g)) 23 ++
   chk (outcome_eqb jq_eqb (gp_model m) (gp_model g)) 24 ++
   chk (outcome_eqb jq_eqb (gp_coll m) (gp_coll g)) 25 ++
-  chk (outcome_eqb acc_eqb (gp_access m) (gp_access g)) 26.
+  chk (outcome_eqb acc_eqb (gp_access m) (gp_access g)) 26 ++
+  chk (bool3_eqb (gp_typed m) (gp_typed g)) 31.
 
 (* the fields of a Value that mean something for its type (RID of a non-reference and Inner of a
    non-data value are left-overs that Equal and MarshalJSON never read) *)
@@ -141,7 +150,10 @@ Definition check_case (c : ccase) : list N :=
                      | Some (b, []) => if beq b body then json_unescape body else None
                      | _ => None
                      end) g) 4
-  | CRef rid g_q g_ref g_soft g_ref_back g_soft_back =>
+  | CValM a g_marshal => chk (beq (value_marshal a) g_marshal) 30
+  | CDVErr g => chk (outcome_eqb beq (marshal_data_value_enc Err) g) 10
+  | CRef rid g_q g_ref g_soft g_ref_back g_soft_back g_valid =>
+    chk (Bool.eqb (is_valid_rid rid) (fst g_valid) && Bool.eqb (is_valid_rid rid) (snd g_valid)) 29 ++
     chk (beq (quote rid) g_q) 1 ++
     chk (outcome_eqb beq (ref_marshal rid) (Ok g_ref)) 5 ++
     chk (outcome_eqb beq (softref_marshal rid) (Ok g_soft)) 6 ++
@@ -209,7 +221,9 @@ Definition viol_case (c : ccase) : list N :=
   match c with
   | CStr s g_esc g_valid g_back => if g_valid && negb (beq g_back s) then [1] else []
   | CUnq _ _ => []
-  | CRef rid g_q g_ref g_soft g_ref_back g_soft_back =>
+  | CValM _ _ => []
+  | CDVErr _ => []
+  | CRef rid g_q g_ref g_soft g_ref_back g_soft_back g_valid =>
     (if beq g_ref (ref_prefix ++ g_q ++ [125]) && beq g_soft (ref_prefix ++ g_q ++ softref_suffix)
      then [] else [2]) ++
     (if utf8_valid rid && negb (obytes_eqb g_ref_back (Some rid) && obytes_eqb g_soft_back (Some rid)) then [3] else [])
